@@ -238,7 +238,15 @@ def run_instance(modname, obname, prop, params, cfg):
             good = c.get("kind") == exp_kind and (exp_kind != "refused" or c.get("tag") == tag)
             if good:
                 for cn, cv in claims.items():
-                    sv = _mval(pm, cv) if isinstance(cv, (SymBool, SymInt)) else bool(cv)
+                    if isinstance(cv, SymBool):
+                        ev = pm.eval(cv.e, model_completion=True)
+                        if not (z3.is_true(ev) or z3.is_false(ev)):
+                            continue      # not evaluable under this model (uninterpreted arithmetic): nothing to compare
+                        sv = z3.is_true(ev)
+                        if core.ABSTRACT_BITS is not None or core.ABSTRACT_DIV_BITS is not None:
+                            continue      # the model interprets the abstracted operators arbitrarily: its verdict on the claim is not the real one
+                    else:
+                        sv = _mval(pm, cv) if isinstance(cv, SymInt) else bool(cv)
                     if c.get("claims", {}).get(cn) is not bool(sv):
                         good = False
             if good:
